@@ -1,8 +1,1586 @@
-//! C17 – not implemented yet.
-use mvlib::Ctx;
-use serde_json::Value;
+//! C17 – format-document edits reproduce the formatter.
+//!
+//! Enumerated: buffers = valid base programs (+ 5 formatter-specific shapes) in these variants:
+//! as rendered; one comment per trivia slot (`/* c1 */` at ws slots; at mws slots also `// c2`, a
+//! two-line block comment and – where the slot holds a line break – a line / block comment ending
+//! the previous line); 13 whole-file spacing variants (blank lines, odd indentation, trailing
+//! whitespace, widened spaces, leading / trailing blank lines, comments before end of file);
+//! one-factor whitespace deviations at every slot (quick: space / tab / three spaces / one line
+//! break; thorough: 7 kinds and the separator removed); thorough: all pairs of comments at most 6
+//! terminals apart; the same comment slots with non-ASCII comment text (`é`, `→`, `💾`) and every
+//! string literal with a non-ASCII character at its start / middle / end, each as-is, with trailing
+//! whitespace and with widened spaces (so that edits follow the non-ASCII text on its line); CRLF
+//! versions; 15 tiny buffers; the example sources of /repo/examples (imports flattened into the scratch root); and
+//! for every such buffer the formatter's own output (already formatted text; also with CRLF line
+//! ends), and the formatted base programs with one `, ` written ` ,` (text moving across unchanged
+//! text, the input of the delete / equal / insert merge rule).
+//! Requests per buffer (fresh real server, real main loop over an in-memory connection):
+//! `textDocument/formatting` and `textDocument/onTypeFormatting` (ch = "}") after every `}`.
+//!
+//! Oracle (only when the answer contains edits): ranges in range, sorted, non-overlapping; applied
+//! in the standard LSP manner (line ends `\n`, `\r\n`, `\r`; columns = UTF-16 code units) the
+//! result equals `format(path, tree, default)` of the in-process formatter. The same edits are also
+//! applied under five non-standard readings (columns in bytes / chars; `\r` counted as a column of
+//! its line) – only to name the root cause in the signature and the evidence, never for a verdict.
+//! `mos format` (real binary) is cross-checked against the in-process formatter on a stratified
+//! selection of the buffers.
 
-pub fn run(_ctx: &Ctx, _replay: Option<&Value>) -> i32 {
-    eprintln!("C17: engine not implemented yet");
-    2
+use crate::lspdrv::{root, uri, Death, Server};
+use mos_core::formatting::{format, FormattingOptions};
+use mos_core::parser::parse;
+use mos_core::parser::source::InMemoryParsingSource;
+use mvlib::grammar::*;
+use mvlib::isa::Form;
+use mvlib::panics::guard;
+use mvlib::progs::{base_programs, Prog, OTHER_ASM};
+use mvlib::{fnv_str, Ctx, Finding};
+use rayon::prelude::*;
+use serde_json::{json, Value};
+use std::collections::{BTreeMap, BTreeSet, HashSet};
+use std::path::{Path, PathBuf};
+use std::process::Command;
+use std::sync::atomic::{AtomicU64, Ordering};
+use std::sync::Mutex;
+
+// ------------------------------------------------------------------------------------------------
+// LSP text model
+
+#[derive(Clone, Copy, PartialEq, Eq, Debug)]
+enum Units {
+    Utf16,
+    Bytes,
+    Chars,
+}
+
+#[derive(Clone, Copy, PartialEq, Eq, Debug)]
+enum LineModel {
+    /// lines end at `\n`, `\r\n` or `\r` (LSP specification)
+    Standard,
+    /// only `\n` ends a line, a `\r` before it is a character of the line
+    LfOnly,
+}
+
+/// the standard reading first
+const READINGS: [(Units, LineModel, &str); 6] = [
+    (Units::Utf16, LineModel::Standard, "utf16"),
+    (Units::Bytes, LineModel::Standard, "bytes"),
+    (Units::Chars, LineModel::Standard, "chars"),
+    (Units::Utf16, LineModel::LfOnly, "utf16+cr-is-a-column"),
+    (Units::Bytes, LineModel::LfOnly, "bytes+cr-is-a-column"),
+    (Units::Chars, LineModel::LfOnly, "chars+cr-is-a-column"),
+];
+
+/// (content start, content end) byte offsets of every line; a text with n line ends has n+1 lines
+fn split_lines(text: &str, lm: LineModel) -> Vec<(usize, usize)> {
+    let b = text.as_bytes();
+    let mut out = vec![];
+    let mut start = 0;
+    let mut i = 0;
+    while i < b.len() {
+        match b[i] {
+            b'\n' => {
+                out.push((start, i));
+                start = i + 1;
+                i += 1;
+            }
+            b'\r' if lm == LineModel::Standard => {
+                out.push((start, i));
+                if i + 1 < b.len() && b[i + 1] == b'\n' {
+                    i += 2;
+                } else {
+                    i += 1;
+                }
+                start = i;
+            }
+            _ => i += 1,
+        }
+    }
+    out.push((start, b.len()));
+    out
+}
+
+fn width(c: char, u: Units) -> usize {
+    match u {
+        Units::Utf16 => c.len_utf16(),
+        Units::Bytes => c.len_utf8(),
+        Units::Chars => 1,
+    }
+}
+
+#[derive(Clone, Copy, PartialEq, Eq, Debug)]
+enum PosErr {
+    LineBeyond,
+    ColBeyond,
+    InsideChar,
+}
+
+/// byte offset of a position; out-of-range positions are clamped the way the specification says
+/// (character > line length -> line length; line beyond the document -> end of document)
+fn offset(text: &str, lines: &[(usize, usize)], line: u64, ch: u64, u: Units) -> (usize, Option<PosErr>) {
+    if line as usize >= lines.len() {
+        return (text.len(), Some(PosErr::LineBeyond));
+    }
+    let (s, e) = lines[line as usize];
+    let mut col = 0u64;
+    for (i, c) in text[s..e].char_indices() {
+        if col == ch {
+            return (s + i, None);
+        }
+        if col > ch {
+            return (s + i, Some(PosErr::InsideChar));
+        }
+        col += width(c, u) as u64;
+    }
+    if col == ch {
+        (e, None)
+    } else if col > ch {
+        (e, Some(PosErr::InsideChar))
+    } else {
+        (e, Some(PosErr::ColBeyond))
+    }
+}
+
+#[derive(Clone, Debug, PartialEq)]
+struct Edit {
+    sl: u64,
+    sc: u64,
+    el: u64,
+    ec: u64,
+    new_text: String,
+}
+
+fn parse_edits(v: &Value) -> Result<Vec<Edit>, String> {
+    let a = v.as_array().ok_or_else(|| "answer is not an array".to_string())?;
+    let mut out = vec![];
+    for e in a {
+        let g = |p: &str, q: &str| e["range"][p][q].as_u64().ok_or_else(|| format!("edit without range.{}.{}: {}", p, q, e));
+        out.push(Edit {
+            sl: g("start", "line")?,
+            sc: g("start", "character")?,
+            el: g("end", "line")?,
+            ec: g("end", "character")?,
+            new_text: e["newText"].as_str().ok_or_else(|| format!("edit without newText: {}", e))?.to_string(),
+        });
+    }
+    Ok(out)
+}
+
+struct Applied {
+    /// every position exists in the document under this reading
+    in_range: bool,
+    first_out_of_range: Option<(usize, PosErr)>,
+    /// None when the edits overlap after conversion to offsets
+    text: Option<String>,
+    /// per edit (in offset order): (edit index, start of its new text in the result)
+    out_starts: Vec<(usize, usize)>,
+}
+
+/// All ranges refer to the original text; edits are applied in offset order (stable for equal
+/// starts), as a client does.
+fn apply(text: &str, edits: &[Edit], u: Units, lm: LineModel) -> Applied {
+    let lines = split_lines(text, lm);
+    let mut conv: Vec<(usize, usize, usize)> = vec![];
+    let mut first_bad = None;
+    for (i, e) in edits.iter().enumerate() {
+        let (so, e1) = offset(text, &lines, e.sl, e.sc, u);
+        let (eo, e2) = offset(text, &lines, e.el, e.ec, u);
+        if first_bad.is_none() {
+            if let Some(p) = e1.or(e2) {
+                first_bad = Some((i, p));
+            }
+        }
+        conv.push((so, eo, i));
+    }
+    conv.sort_by_key(|c| c.0);
+    let mut out = String::new();
+    let mut out_starts = vec![];
+    let mut cur = 0usize;
+    let mut ok = true;
+    for (so, eo, i) in &conv {
+        if *so < cur || eo < so {
+            ok = false;
+            break;
+        }
+        out.push_str(&text[cur..*so]);
+        out_starts.push((*i, out.len()));
+        out.push_str(&edits[*i].new_text);
+        cur = *eo;
+    }
+    if ok {
+        out.push_str(&text[cur..]);
+    }
+    Applied {
+        in_range: first_bad.is_none(),
+        first_out_of_range: first_bad,
+        text: if ok { Some(out) } else { None },
+        out_starts,
+    }
+}
+
+/// order / overlap on the raw positions (independent of any reading)
+fn order_problem(edits: &[Edit]) -> Option<(&'static str, usize)> {
+    for (i, e) in edits.iter().enumerate() {
+        if (e.sl, e.sc) > (e.el, e.ec) {
+            return Some(("unsorted", i));
+        }
+    }
+    for i in 1..edits.len() {
+        let (p, q) = (&edits[i - 1], &edits[i]);
+        if (q.sl, q.sc) < (p.sl, p.sc) {
+            return Some(("unsorted", i));
+        }
+        if (q.sl, q.sc) < (p.el, p.ec) {
+            return Some(("overlap", i));
+        }
+    }
+    None
+}
+
+fn edit_shape(text: &str, e: &Edit) -> String {
+    let lines = split_lines(text, LineModel::Standard);
+    let empty_range = (e.sl, e.sc) == (e.el, e.ec);
+    let multi = e.sl != e.el || e.new_text.contains('\n');
+    let kind = if empty_range {
+        "insert"
+    } else if e.new_text.is_empty() {
+        "delete"
+    } else {
+        "replace"
+    };
+    let at_eol = (e.sl as usize) < lines.len() && {
+        let (s, en) = lines[e.sl as usize];
+        let (o, _) = offset(text, &lines, e.sl, e.sc, Units::Utf16);
+        o == en && en > s
+    };
+    format!("{}{}{}", if multi { "multi-line-" } else { "" }, kind, if at_eol { "-at-eol" } else { "" })
+}
+
+/// The model must behave on hand-made cases; otherwise the engine is broken (machinery failure).
+fn self_check() -> Result<(), String> {
+    let e = |sl, sc, el, ec, t: &str| Edit {
+        sl,
+        sc,
+        el,
+        ec,
+        new_text: t.to_string(),
+    };
+    // (text, edits, reading index, expected result, in range)
+    let cases: Vec<(&str, Vec<Edit>, usize, Option<&str>, bool)> = vec![
+        ("foo foo foo", vec![e(0, 0, 0, 3, "b"), e(0, 8, 0, 11, "b")], 0, Some("b foo b"), true),
+        ("nop\n{nop}", vec![e(1, 0, 1, 1, "\n{\n    "), e(1, 4, 1, 4, "\n")], 0, Some("nop\n\n{\n    nop\n}"), true),
+        // `💾` is 2 UTF-16 units, 4 bytes, 1 char
+        ("a💾b c", vec![e(0, 4, 0, 5, "")], 0, Some("a💾bc"), true),
+        ("a💾b c", vec![e(0, 6, 0, 7, "")], 1, Some("a💾bc"), true),
+        ("a💾b c", vec![e(0, 3, 0, 4, "")], 2, Some("a💾bc"), true),
+        ("a💾b c", vec![e(0, 6, 0, 7, "")], 0, Some("a💾b c"), false),
+        ("a💾b", vec![e(0, 2, 0, 2, "x")], 0, Some("a💾xb"), false),
+        // line ends
+        ("a\r\nb\rc\nd", vec![e(1, 0, 1, 1, "B"), e(2, 0, 2, 1, "C"), e(3, 0, 3, 1, "D")], 0, Some("a\r\nB\rC\nD"), true),
+        ("a\r\nb", vec![e(0, 1, 0, 2, "")], 0, Some("a\r\nb"), false),
+        ("a\r\nb", vec![e(0, 1, 0, 2, "")], 3, Some("a\nb"), true),
+        ("a\r\nb", vec![e(0, 1, 1, 0, "\n")], 0, Some("a\nb"), true),
+        ("ab", vec![e(5, 0, 5, 0, "x")], 0, Some("abx"), false),
+        ("abcdef", vec![e(0, 0, 0, 3, "x"), e(0, 2, 0, 4, "y")], 0, None, true),
+        ("", vec![e(0, 0, 0, 0, "x")], 0, Some("x"), true),
+        ("ab\n", vec![e(1, 0, 1, 0, "x")], 0, Some("ab\nx"), true),
+    ];
+    for (text, edits, r, want, in_range) in cases {
+        let (u, lm, name) = READINGS[r];
+        let a = apply(text, &edits, u, lm);
+        if a.text.as_deref() != want || a.in_range != in_range {
+            return Err(format!(
+                "text model self-check: {:?} with {:?} under {} gives {:?} (in range {}), expected {:?} (in range {})",
+                text, edits, name, a.text, a.in_range, want, in_range
+            ));
+        }
+    }
+    if order_problem(&[e(0, 4, 0, 5, ""), e(0, 0, 0, 1, "")]).map(|p| p.0) != Some("unsorted")
+        || order_problem(&[e(0, 0, 0, 5, ""), e(0, 4, 0, 6, "")]).map(|p| p.0) != Some("overlap")
+        || order_problem(&[e(0, 0, 0, 5, ""), e(0, 5, 0, 5, "x"), e(0, 5, 0, 6, "")]).is_some()
+    {
+        return Err("text model self-check: order_problem".into());
+    }
+    Ok(())
+}
+
+// ------------------------------------------------------------------------------------------------
+// buffers
+
+#[derive(Clone, Debug)]
+struct Buf {
+    prog: String,
+    family: &'static str,
+    variant: String,
+    /// (file name relative to the scratch root, text); the entry point is `main.asm`
+    files: Vec<(String, String)>,
+    /// the file the requests are about
+    target: String,
+}
+
+impl Buf {
+    fn text(&self) -> &str {
+        &self.files.iter().find(|f| f.0 == self.target).unwrap().1
+    }
+    fn key(&self) -> u64 {
+        let mut s = self.target.clone();
+        for (n, t) in &self.files {
+            s.push('\u{1}');
+            s.push_str(n);
+            s.push('\u{2}');
+            s.push_str(t);
+        }
+        fnv_str(&s)
+    }
+    fn case_json(&self, request: &str, pos: Option<(u64, u64)>) -> Value {
+        let mut files = serde_json::Map::new();
+        for (n, t) in &self.files {
+            files.insert(n.clone(), json!(t));
+        }
+        let mut c = json!({"program": self.prog, "family": self.family, "variant": self.variant, "files": files, "target": self.target, "request": request});
+        if let Some((l, ch)) = pos {
+            c["position"] = json!({"line": l, "character": ch});
+        }
+        c
+    }
+}
+
+const FLAVORS: [&str; 3] = ["é", "→", "💾"];
+
+/// comment kinds as in C12: 0 block, 1 line, 2 two-line block (inserted before the terminal),
+/// 3 line / 4 block comment ending the previous line (replace a line-break separator)
+const COMMENT_KINDS: [&str; 5] = ["block", "line", "mblock", "eol-line", "eol-block"];
+
+fn comment_text(kind: usize, second: bool, flavor: Option<&str>) -> String {
+    let (a, b, c, d) = match (flavor, second) {
+        (None, false) => ("c1".to_string(), "c2".to_string(), "a".to_string(), "b".to_string()),
+        (None, true) => ("d1".to_string(), "d2".to_string(), "e".to_string(), "f".to_string()),
+        (Some(f), _) => (f.to_string(), f.to_string(), f.to_string(), f.to_string()),
+    };
+    match kind {
+        0 => format!("/* {} */", a),
+        1 => format!("// {}\n", b),
+        2 => format!("/* {}\n   {} */", c, d),
+        3 => format!(" // {}\n", b),
+        _ => format!(" /* {} */\n", a),
+    }
+}
+
+fn comment_dev(slot: (usize, usize), second: bool, flavor: Option<&str>) -> Dev {
+    let text = comment_text(slot.1, second, flavor);
+    if slot.1 >= 3 {
+        Dev::Sep(slot.0, text)
+    } else {
+        Dev::Insert(slot.0, text)
+    }
+}
+
+/// (terminal index, comment kind) for every comment slot
+fn comment_slots(r: &Rendered) -> Vec<(usize, usize)> {
+    let mut out = vec![];
+    for (i, t) in r.terms.iter().enumerate() {
+        match t.slot {
+            Slot::None => {}
+            Slot::Ws => out.push((i, 0)),
+            Slot::Mws => {
+                for k in 0..3 {
+                    out.push((i, k));
+                }
+                if t.sep == "\n" {
+                    out.push((i, 3));
+                    out.push((i, 4));
+                }
+            }
+        }
+    }
+    out
+}
+
+const WS_DEVS: [(&str, &str); 3] = [("space", " "), ("tab", "\t"), ("spaces3", "   ")];
+const MWS_DEVS: [(&str, &str); 4] = [("newline", "\n"), ("newlines2", "\n\n"), ("space-newline", " \n"), ("newline-tab", "\n\t")];
+
+const FILE_VARIANTS: [&str; 13] = [
+    "double-spaces",
+    "blank-lines",
+    "indented",
+    "leading-blank",
+    "trailing-newline",
+    "trailing-blank-lines",
+    "trailing-ws",
+    "wide-spaces",
+    "tabs",
+    "eof-line-comment",
+    "eof-block-comment",
+    "eof-own-line-comment",
+    "eof-mblock-comment",
+];
+
+fn file_variant(base: &str, v: &str) -> String {
+    match v {
+        "as-is" => base.to_string(),
+        "blank-lines" => base.replace('\n', "\n\n\n"),
+        "indented" => format!("  {}", base.replace('\n', "\n\t  ")),
+        "leading-blank" => format!("\n\n  {}", base),
+        "trailing-newline" => format!("{}\n", base),
+        "trailing-blank-lines" => format!("{}\n\n\n", base),
+        "trailing-ws" => format!("{}  \t", base.replace('\n', " \t \n")),
+        "wide-spaces" => base.replace(' ', "   "),
+        "double-spaces" => base.replace(' ', "  "),
+        "tabs" => base.replace(' ', "\t"),
+        "eof-line-comment" => format!("{} // c2", base),
+        "eof-block-comment" => format!("{} /* c1 */", base),
+        "eof-own-line-comment" => format!("{}\n// c2\n", base),
+        "eof-mblock-comment" => format!("{}\n/* a\n   b */\n", base),
+        _ => unreachable!(),
+    }
+}
+
+fn extra_programs() -> Vec<Prog> {
+    let nop = || imp("nop");
+    let p = |name: &str, stmts: Vec<Stmt>| Prog {
+        name: name.to_string(),
+        stmts,
+        valid: true,
+    };
+    vec![
+        p(
+            "fmt-long-labels",
+            vec![
+                label("a_label_longer_than_the_label_margin"),
+                nop(),
+                label("x"),
+                nop(),
+                label_block("another_quite_long_label_name", vec![nop(), label("inner_label_that_is_long_too"), imp("rts")]),
+            ],
+        ),
+        p(
+            "fmt-label-runs",
+            vec![
+                label("l1"),
+                label("l2"),
+                nop(),
+                label("d1"),
+                byte(vec![num(1), num(2)]),
+                label("t1"),
+                Stmt::Text {
+                    encoding: None,
+                    value: string("ab"),
+                },
+                label("e1"),
+            ],
+        ),
+        p(
+            "fmt-empty-blocks",
+            vec![
+                Stmt::Braces(vec![]),
+                label_block("e", vec![]),
+                Stmt::Loop {
+                    count: num(2),
+                    body: vec![],
+                },
+                Stmt::If {
+                    cond: num(1),
+                    then: vec![],
+                    els: Some(vec![]),
+                },
+                Stmt::Test {
+                    name: "t".into(),
+                    body: vec![],
+                },
+                nop(),
+            ],
+        ),
+        p(
+            "fmt-mixed-kinds",
+            vec![
+                konst("c", num(1)),
+                konst("d", num(2)),
+                ins("lda", Form::Imm, id("c")),
+                byte(vec![id("d")]),
+                ins("ldx", Form::Imm, id("d")),
+                Stmt::Braces(vec![nop()]),
+                Stmt::Braces(vec![nop()]),
+                Stmt::If {
+                    cond: id("c"),
+                    then: vec![nop()],
+                    els: None,
+                },
+                label("after_if"),
+                imp("rts"),
+            ],
+        ),
+        // string literals everywhere a string may stand
+        p(
+            "fmt-strings",
+            vec![
+                konst("s", string("ab")),
+                Stmt::Text {
+                    encoding: None,
+                    value: string("cd"),
+                },
+                Stmt::Test {
+                    name: "tn".into(),
+                    body: vec![
+                        Stmt::Assert {
+                            cond: num(1),
+                            msg: Some("msg".into()),
+                        },
+                        imp("brk"),
+                    ],
+                },
+                byte(vec![bin(id("s"), "==", string("ab")), num(2)]),
+            ],
+        ),
+    ]
+}
+
+fn main_files(text: String) -> Vec<(String, String)> {
+    let mut files = vec![("main.asm".to_string(), text)];
+    if files[0].1.contains("other.asm") {
+        files.push(("other.asm".to_string(), OTHER_ASM.to_string()));
+    }
+    files
+}
+
+fn crlf(s: &str) -> String {
+    s.replace('\n', "\r\n")
+}
+
+fn buffers(thorough: bool, ctx: &Ctx) -> Vec<Buf> {
+    let mut progs: Vec<Prog> = base_programs().into_iter().filter(|p| p.valid).collect();
+    progs.extend(extra_programs());
+    ctx.set("base_programs", json!(progs.len()));
+    let mut out: Vec<Buf> = vec![];
+    let mut slots_total = 0usize;
+    let mut string_terms = 0usize;
+    for p in &progs {
+        let r = render(&p.stmts);
+        let base = r.text();
+        let mut push = |family: &'static str, variant: String, text: String, with_crlf: bool| {
+            out.push(Buf {
+                prog: p.name.clone(),
+                family,
+                variant: variant.clone(),
+                files: main_files(text.clone()),
+                target: "main.asm".into(),
+            });
+            if with_crlf && text.contains('\n') {
+                out.push(Buf {
+                    prog: p.name.clone(),
+                    family,
+                    variant: format!("{}+crlf", variant),
+                    files: main_files(crlf(&text)),
+                    target: "main.asm".into(),
+                });
+            }
+        };
+        // as rendered + whole-file variants
+        push("plain", "as-is".into(), base.clone(), true);
+        for v in FILE_VARIANTS.iter() {
+            push("file-variant", v.to_string(), file_variant(&base, v), true);
+        }
+        // one comment per slot (ASCII)
+        let slots = comment_slots(&r);
+        slots_total += r.terms.iter().filter(|t| t.slot != Slot::None).count();
+        for (i, k) in &slots {
+            let text = r.layout(&[comment_dev((*i, *k), false, None)]).text;
+            push("comment-slot", format!("{}@{}", COMMENT_KINDS[*k], i), text, true);
+        }
+        // the same slots with non-ASCII comment text; the edits of interest follow the comment
+        // on its line, hence also the trailing-whitespace and widened-spaces transforms
+        for (n, (i, k)) in slots.iter().enumerate() {
+            for (fi, f) in FLAVORS.iter().enumerate() {
+                if !thorough && fi != n % 3 {
+                    continue;
+                }
+                let text = r.layout(&[comment_dev((*i, *k), false, Some(f))]).text;
+                let name = format!("{}@{}:{}", COMMENT_KINDS[*k], i, f);
+                push("non-ascii-comment", name.clone(), text.clone(), true);
+                push("non-ascii-comment", format!("{}+trailing-ws", name), file_variant(&text, "trailing-ws"), thorough);
+                push("non-ascii-comment", format!("{}+wide-spaces", name), file_variant(&text, "wide-spaces"), thorough);
+            }
+        }
+        // non-ASCII text in string literals (not in import file names)
+        let mut n = 0usize;
+        for (i, t) in r.terms.iter().enumerate() {
+            if t.kind != Kind::Str || t.text.contains(".asm") {
+                continue;
+            }
+            string_terms += 1;
+            let inner: Vec<char> = t.text[1..t.text.len() - 1].chars().collect();
+            for (pi, pos) in ["start", "middle", "end"].iter().enumerate() {
+                for (fi, f) in FLAVORS.iter().enumerate() {
+                    n += 1;
+                    if !thorough && fi != (n / 3 + pi) % 3 {
+                        continue;
+                    }
+                    let at = match pi {
+                        0 => 0,
+                        1 => 1.min(inner.len()),
+                        _ => inner.len(),
+                    };
+                    let mut s: String = inner[..at].iter().collect();
+                    s.push_str(f);
+                    s.extend(inner[at..].iter());
+                    let mut r2 = r.clone();
+                    r2.terms[i].text = format!("\"{}\"", s);
+                    let text = r2.text();
+                    let name = format!("string@{}:{}:{}", i, pos, f);
+                    push("non-ascii-string", name.clone(), text.clone(), true);
+                    push("non-ascii-string", format!("{}+trailing-ws", name), file_variant(&text, "trailing-ws"), thorough);
+                    push("non-ascii-string", format!("{}+wide-spaces", name), file_variant(&text, "wide-spaces"), thorough);
+                    if thorough {
+                        push("non-ascii-string", format!("{}+indented", name), file_variant(&text, "indented"), true);
+                    }
+                }
+            }
+        }
+        // one-factor whitespace deviations: quick = space / tab / three spaces / one line break at
+        // every slot that takes it, thorough = all seven kinds and the default separator removed
+        for (i, t) in r.terms.iter().enumerate() {
+            let devs: Vec<(&str, &str)> = match t.slot {
+                Slot::None => vec![],
+                Slot::Ws => WS_DEVS.to_vec(),
+                Slot::Mws => WS_DEVS.iter().chain(MWS_DEVS.iter()).cloned().collect(),
+            };
+            for (name, s) in devs {
+                if !thorough && MWS_DEVS.iter().any(|d| d.0 == name) && name != "newline" {
+                    continue;
+                }
+                let text = r.layout(&[Dev::Insert(i, s.to_string())]).text;
+                push("whitespace-deviation", format!("{}@{}", name, i), text, true);
+            }
+            // the default separator removed (where the result is still an error-free buffer)
+            if thorough && !t.sep.is_empty() && i > 0 {
+                let text = r.layout(&[Dev::Sep(i, String::new())]).text;
+                push("whitespace-deviation", format!("no-separator@{}", i), text, false);
+            }
+        }
+        if thorough {
+            // pairs of comments at most 6 terminals apart, distinct texts
+            for a in 0..slots.len() {
+                for b in a + 1..slots.len() {
+                    if slots[b].0 - slots[a].0 > 6 {
+                        break;
+                    }
+                    if slots[a].0 == slots[b].0 && (slots[a].1 >= 3) != (slots[b].1 >= 3) {
+                        // a separator replacement and an insertion at the same terminal are fine;
+                        // two separator replacements are not two comments
+                    }
+                    if slots[a].0 == slots[b].0 && slots[a].1 >= 3 && slots[b].1 >= 3 {
+                        continue;
+                    }
+                    let text = r
+                        .layout(&[comment_dev(slots[a], false, None), comment_dev(slots[b], true, None)])
+                        .text;
+                    push(
+                        "comment-pair",
+                        format!("{}@{}&{}@{}", COMMENT_KINDS[slots[a].1], slots[a].0, COMMENT_KINDS[slots[b].1], slots[b].0),
+                        text,
+                        false,
+                    );
+                }
+            }
+        }
+    }
+    ctx.set("trivia_slots", json!(slots_total));
+    ctx.set("string_terminals", json!(string_terms));
+
+    // tiny buffers (the smallest members of the classes above; they become the reproducers)
+    for t in [
+        "nop",
+        "nop\n",
+        "nop\nnop",
+        "{nop}",
+        "{nop}\n",
+        "a: nop",
+        "a:\nnop  \n",
+        "/* é */nop",
+        "/* → */nop",
+        "/* 💾 */nop",
+        ".text \"é\"  ",
+        "lda /* 💾 */  #1",
+        "nop // é",
+        "nop   // é\n nop",
+        ".const s = \"é→💾\"  \nnop",
+    ] {
+        for text in [t.to_string(), crlf(t)] {
+            out.push(Buf {
+                prog: "tiny".into(),
+                family: "tiny",
+                variant: format!("{:?}", text),
+                files: main_files(text),
+                target: "main.asm".into(),
+            });
+        }
+    }
+
+    // a file that is not the entry point: other.asm imported by main.asm
+    for (v, other) in [
+        ("as-is", OTHER_ASM.to_string()),
+        ("crlf", crlf(OTHER_ASM)),
+        ("non-ascii", format!("// é → 💾  \n{}  // 💾 end  ", OTHER_ASM.replace("{ baz", "{ /* → */   baz"))),
+    ] {
+        out.push(Buf {
+            prog: "imported-file".into(),
+            family: "imported-file",
+            variant: v.into(),
+            files: vec![
+                ("main.asm".into(), ".import * from \"other.asm\"\njsr foo".into()),
+                ("other.asm".into(), other),
+            ],
+            target: "other.asm".into(),
+        });
+    }
+
+    // example sources; the documents of a server live in one scratch root, so the imported file is
+    // placed next to main.asm and the import path is flattened accordingly
+    let examples = Path::new("/repo/examples");
+    let mut n_examples = 0;
+    for (dir, import) in [
+        ("atari800/colors", Some(("atari800.asm", "atari800/colors/atari800.asm"))),
+        ("c64/cartridge", Some(("../shared/c64.asm", "c64/shared/c64.asm"))),
+        ("c64/scroller", Some(("../shared/c64.asm", "c64/shared/c64.asm"))),
+        ("c64/unit-testing", None),
+    ] {
+        let main = match std::fs::read_to_string(examples.join(dir).join("main.asm")) {
+            Ok(t) => t,
+            Err(_) => {
+                ctx.note(format!("example {} not readable", dir));
+                continue;
+            }
+        };
+        let mut files = vec![];
+        let mut main = main;
+        let mut imp_name = None;
+        if let Some((as_written, path)) = import {
+            if let Ok(t) = std::fs::read_to_string(examples.join(path)) {
+                let flat = Path::new(path).file_name().unwrap().to_string_lossy().to_string();
+                main = main.replace(&format!("\"{}\"", as_written), &format!("\"{}\"", flat));
+                files.push((flat.clone(), t));
+                imp_name = Some(flat);
+            }
+        }
+        files.insert(0, ("main.asm".to_string(), main));
+        let mut targets = vec!["main.asm".to_string()];
+        if let Some(i) = imp_name {
+            targets.push(i);
+        }
+        for t in targets {
+            n_examples += 1;
+            for (v, tr) in [("as-is", "as-is"), ("crlf", "as-is"), ("trailing-ws", "trailing-ws"), ("wide-spaces", "wide-spaces")] {
+                let mut fs = files.clone();
+                for f in fs.iter_mut() {
+                    if f.0 == t {
+                        f.1 = file_variant(&f.1, tr);
+                        if v == "crlf" {
+                            f.1 = crlf(&f.1.replace("\r\n", "\n"));
+                        }
+                    }
+                }
+                out.push(Buf {
+                    prog: format!("example:{}", dir),
+                    family: "example",
+                    variant: format!("{}:{}", t, v),
+                    files: fs,
+                    target: t.clone(),
+                });
+            }
+        }
+    }
+    ctx.set("example_files", json!(n_examples));
+    out
+}
+
+// ------------------------------------------------------------------------------------------------
+// reference: the in-process formatter on the same paths the server uses
+
+#[derive(Clone, Debug)]
+enum Reference {
+    Formatted(String),
+    /// the buffer has parse diagnostics: outside the quantifier
+    NotErrorFree(String),
+    Panic(String),
+}
+
+fn reference(b: &Buf) -> Reference {
+    let rootp = root();
+    let mut src = InMemoryParsingSource::new();
+    for (n, t) in &b.files {
+        src = src.add(rootp.join(n).to_string_lossy().to_string(), t);
+    }
+    let main = rootp.join("main.asm");
+    let target = rootp.join(&b.target);
+    let r = guard(move || {
+        let (tree, errs) = parse(&main, src.into());
+        match tree {
+            Some(t) if errs.is_empty() => {
+                if t.try_get_file(&target).is_none() {
+                    return Err("target file is not part of the parse tree".to_string());
+                }
+                Ok(format(target, t, FormattingOptions::default()))
+            }
+            _ => Err(errs.iter().next().map(|d| d.message.clone()).unwrap_or_else(|| "no parse tree".into())),
+        }
+    });
+    match r {
+        Ok(Ok(s)) => Reference::Formatted(s),
+        Ok(Err(e)) => Reference::NotErrorFree(e),
+        Err(p) => Reference::Panic(format!("{} at {}", p.message, p.site)),
+    }
+}
+
+// ------------------------------------------------------------------------------------------------
+// one buffer on a fresh server
+
+#[derive(Clone, Debug)]
+struct Req {
+    kind: &'static str,
+    pos: Option<(u64, u64)>,
+}
+
+fn requests_for(text: &str, max_on_type: usize) -> Vec<Req> {
+    let mut out = vec![Req {
+        kind: "formatting",
+        pos: None,
+    }];
+    let lines = split_lines(text, LineModel::Standard);
+    let mut n = 0;
+    for (li, (s, e)) in lines.iter().enumerate() {
+        let mut col = 0u64;
+        for c in text[*s..*e].chars() {
+            col += c.len_utf16() as u64;
+            if c == '}' {
+                n += 1;
+                if n <= max_on_type {
+                    out.push(Req {
+                        kind: "onTypeFormatting",
+                        pos: Some((li as u64, col)),
+                    });
+                }
+            }
+        }
+    }
+    out
+}
+
+fn send(s: &mut Server, file: &str, r: &Req) -> Result<Value, Death> {
+    let opts = json!({"tabSize": 4, "insertSpaces": true});
+    match r.pos {
+        None => s.request("textDocument/formatting", json!({"textDocument": {"uri": uri(file)}, "options": opts})),
+        Some((l, c)) => s.request(
+            "textDocument/onTypeFormatting",
+            json!({"textDocument": {"uri": uri(file)}, "position": {"line": l, "character": c}, "ch": "}", "options": opts}),
+        ),
+    }
+}
+
+fn open_all(s: &mut Server, b: &Buf) -> Result<(), Death> {
+    // imported files first, so that main.asm's import finds them
+    for (n, t) in b.files.iter().filter(|f| f.0 != "main.asm") {
+        s.did_open(n, t);
+    }
+    if let Some((n, t)) = b.files.iter().find(|f| f.0 == "main.asm") {
+        s.did_open(n, t);
+    }
+    s.sync()
+}
+
+struct Judged {
+    /// violated clauses in statement order: out-of-range, overlap, unsorted, wrong-text
+    violated: Vec<&'static str>,
+    /// readings (names) under which the edits reproduce the formatter with all positions in range
+    reproduce: Vec<&'static str>,
+    label: String,
+    what: String,
+    n_edits: usize,
+    shapes: BTreeSet<String>,
+}
+
+fn show(s: &str) -> String {
+    if s.len() > 500 {
+        let mut end = 500;
+        while !s.is_char_boundary(end) {
+            end -= 1;
+        }
+        format!("{:?}…", &s[..end])
+    } else {
+        format!("{:?}", s)
+    }
+}
+
+fn first_diff(a: &str, b: &str) -> usize {
+    a.bytes().zip(b.bytes()).position(|(x, y)| x != y).unwrap_or(a.len().min(b.len()))
+}
+
+fn judge(text: &str, expected: &str, edits: &[Edit]) -> Judged {
+    let mut violated = vec![];
+    let mut reproduce = vec![];
+    let std = apply(text, edits, Units::Utf16, LineModel::Standard);
+    let mut culprit: Option<usize> = None;
+    let mut details = vec![];
+    if let Some((i, why)) = std.first_out_of_range {
+        violated.push("out-of-range");
+        culprit = Some(i);
+        let e = &edits[i];
+        details.push(format!(
+            "edit #{} {}:{}-{}:{} is outside the buffer ({})",
+            i,
+            e.sl,
+            e.sc,
+            e.el,
+            e.ec,
+            match why {
+                PosErr::LineBeyond => "line beyond the last line",
+                PosErr::ColBeyond => "character beyond the end of the line",
+                PosErr::InsideChar => "character inside a surrogate pair",
+            }
+        ));
+    }
+    if let Some((k, i)) = order_problem(edits) {
+        violated.push(k);
+        culprit = culprit.or(Some(i));
+        details.push(format!("edit #{} {} with its predecessor", i, if k == "overlap" { "overlaps" } else { "is not in order" }));
+    }
+    let ok_text = std.text.as_deref() == Some(expected);
+    if !ok_text {
+        violated.push("wrong-text");
+        match &std.text {
+            Some(t) => {
+                let d = first_diff(t, expected);
+                let resp = std.out_starts.iter().filter(|(_, o)| *o <= d).map(|(i, _)| *i).last().or(std.out_starts.first().map(|x| x.0));
+                culprit = culprit.or(resp);
+                let mut ds = d;
+                while !t.is_char_boundary(ds) {
+                    ds -= 1;
+                }
+                let mut de = d;
+                while !expected.is_char_boundary(de) {
+                    de -= 1;
+                }
+                let tail = |s: &str, at: usize| -> String {
+                    let from = s[..at].char_indices().rev().nth(12).map(|x| x.0).unwrap_or(0);
+                    let to = s[at..].char_indices().nth(24).map(|x| at + x.0).unwrap_or(s.len());
+                    format!("{:?}", &s[from..to])
+                };
+                details.push(format!(
+                    "applied result differs from the formatter's text at byte {}: got …{}… expected …{}…",
+                    d,
+                    tail(t, ds),
+                    tail(expected, de)
+                ));
+            }
+            None => details.push("edits overlap after conversion to offsets: cannot be applied".to_string()),
+        }
+    }
+    for (u, lm, name) in READINGS.iter() {
+        let a = if *name == "utf16" { None } else { Some(apply(text, edits, *u, *lm)) };
+        let (in_range, t) = match &a {
+            None => (std.in_range, std.text.as_deref()),
+            Some(a) => (a.in_range, a.text.as_deref()),
+        };
+        if in_range && t == Some(expected) {
+            reproduce.push(*name);
+        }
+    }
+    let shapes: BTreeSet<String> = edits.iter().map(|e| edit_shape(text, e)).collect();
+    // label: the non-standard reading that explains the failure, else the shape of the culprit
+    let label = if violated.is_empty() {
+        String::new()
+    } else {
+        let pick = ["utf16+cr-is-a-column", "bytes", "chars", "bytes+cr-is-a-column", "chars+cr-is-a-column"]
+            .iter()
+            .find(|n| reproduce.contains(*n));
+        match pick {
+            Some(&"utf16+cr-is-a-column") => "cr-counted-as-column".to_string(),
+            Some(&"bytes") => "byte-columns".to_string(),
+            Some(&"chars") => "char-columns".to_string(),
+            Some(&"bytes+cr-is-a-column") => "byte-columns+cr-counted-as-column".to_string(),
+            Some(&"chars+cr-is-a-column") => "char-columns+cr-counted-as-column".to_string(),
+            _ => culprit.map(|i| edit_shape(text, &edits[i])).unwrap_or_else(|| "no-edit".into()),
+        }
+    };
+    Judged {
+        violated,
+        reproduce,
+        label,
+        what: details.join("; "),
+        n_edits: edits.len(),
+        shapes,
+    }
+}
+
+fn classes(b: &Buf) -> (&'static str, &'static str) {
+    let t = b.text();
+    (if t.is_ascii() { "ascii" } else { "non-ascii" }, if t.contains("\r\n") { "crlf" } else { "lf" })
+}
+
+struct BufOut {
+    /// formatter output when the buffer is error-free and differs from the buffer
+    formatted: Option<String>,
+    reference_ok: bool,
+}
+
+fn run_buffer(ctx: &Ctx, b: &Buf, max_on_type: usize) -> BufOut {
+    let text = b.text().to_string();
+    let (ascii, eol) = classes(b);
+    let reference = reference(b);
+    let reqs = requests_for(&text, max_on_type);
+    let mut server = Server::start();
+    let opened = open_all(&mut server, b);
+    let mut answers: Vec<(Req, Result<Value, Death>)> = vec![];
+    for r in &reqs {
+        ctx.eval(|| b.case_json(r.kind, r.pos));
+        ctx.count(&format!("requests:{}", r.kind));
+        let a = match &opened {
+            Ok(()) => send(&mut server, &b.target, r),
+            Err(d) => Err(d.clone()),
+        };
+        let dead = a.is_err();
+        answers.push((r.clone(), a));
+        if dead {
+            break;
+        }
+    }
+    let expected = match &reference {
+        Reference::Formatted(s) => s.clone(),
+        Reference::NotErrorFree(_) => {
+            ctx.count("buffers_not_error_free_(outside_the_quantifier)");
+            ctx.count(&format!("not_error_free:{}", b.family));
+            return BufOut {
+                formatted: None,
+                reference_ok: false,
+            };
+        }
+        Reference::Panic(p) => {
+            ctx.count("buffers_formatter_panics_in_process_(no_verdict)");
+            ctx.note(format!("in-process formatter panics on {}: {}", show(&text), p));
+            return BufOut {
+                formatted: None,
+                reference_ok: false,
+            };
+        }
+    };
+    ctx.count("buffers_parse_clean");
+    ctx.count(&format!("buffers:{}:{}:{}", b.family, ascii, eol));
+    let already = expected == text;
+    ctx.count(if already { "buffers_already_formatted" } else { "buffers_not_yet_formatted" });
+
+    // which arms of the chunk -> edit rewrite this (buffer, formatter text) pair reaches; computed
+    // with the same diff library, for the evidence only
+    {
+        use dissimilar::Chunk;
+        let chunks = dissimilar::diff(&text, &expected);
+        let mut arms: BTreeSet<&str> = BTreeSet::new();
+        let mut i = 0;
+        while i < chunks.len() {
+            match (chunks[i], chunks.get(i + 1), chunks.get(i + 2)) {
+                (Chunk::Delete(d), Some(Chunk::Equal(_)), Some(Chunk::Insert(ins))) if &d == ins => {
+                    arms.insert("delete-equal-insert-merge");
+                    i += 3;
+                }
+                (Chunk::Delete(d), Some(Chunk::Insert(ins)), _) => {
+                    arms.insert("delete+insert");
+                    if d.contains('\n') || ins.contains('\n') {
+                        arms.insert("multi-line-chunk");
+                    }
+                    i += 2;
+                }
+                (Chunk::Equal(e), _, _) => {
+                    if e.contains('\n') {
+                        arms.insert("equal-chunk-spanning-lines");
+                    }
+                    i += 1;
+                }
+                (Chunk::Insert(x), _, _) => {
+                    arms.insert("insert");
+                    if x.contains('\n') {
+                        arms.insert("multi-line-chunk");
+                    }
+                    i += 1;
+                }
+                (Chunk::Delete(x), _, _) => {
+                    arms.insert("delete");
+                    if x.contains('\n') {
+                        arms.insert("multi-line-chunk");
+                    }
+                    i += 1;
+                }
+            }
+        }
+        if let Ok(want) = std::env::var("VERIF_C17_DUMP") {
+            if arms.contains(want.as_str()) {
+                eprintln!("[c17] {} / {} reaches {}: {:?} -> {:?}", b.prog, b.variant, want, text, expected);
+            }
+        }
+        for a in arms {
+            ctx.count(&format!("buffers_reaching_rewrite_arm:{}", a));
+        }
+    }
+
+    // group identical answers: the handler ignores the request kind and the position
+    let mut groups: Vec<(String, Vec<usize>)> = vec![];
+    for (i, (_, a)) in answers.iter().enumerate() {
+        let key = match a {
+            Ok(v) => v.to_string(),
+            Err(d) => format!("died:{:?}", d),
+        };
+        match groups.iter_mut().find(|g| g.0 == key) {
+            Some(g) => g.1.push(i),
+            None => groups.push((key, vec![i])),
+        }
+    }
+    if groups.len() > 1 {
+        ctx.count("buffers_with_different_answers_per_request");
+    }
+    for (_, members) in &groups {
+        let kinds: BTreeSet<&str> = members.iter().map(|i| answers[*i].0.kind).collect();
+        let all_kinds: BTreeSet<&str> = answers.iter().map(|a| a.0.kind).collect();
+        // `any`: every request sent for this buffer (formatting and, where the buffer has a `}`,
+        // onTypeFormatting at every such position) got this very answer
+        let _ = all_kinds;
+        let kind = if groups.len() == 1 {
+            "any".to_string()
+        } else {
+            kinds.iter().cloned().collect::<Vec<_>>().join("+")
+        };
+        let first = &answers[members[0]];
+        let n = members.len() as u64;
+        let v = match &first.1 {
+            Ok(v) => v,
+            Err(d) => {
+                // a dying server is C14's subject; counted, no verdict here
+                ctx.count_n("answers_server_died_(no_verdict)", n);
+                ctx.note(format!("server died on {} for {}: {:?}", first.0.kind, show(&text), d));
+                continue;
+            }
+        };
+        if v.is_null() {
+            ctx.count_n("answers_null", n);
+            let diag = server
+                .diags
+                .values()
+                .filter_map(|d| d.as_array())
+                .flat_map(|a| a.iter())
+                .filter_map(|d| d["message"].as_str())
+                .next()
+                .map(|s| s.to_string());
+            match diag {
+                Some(d) => {
+                    // the parse is clean but code generation reports a diagnostic: the buffer is
+                    // not error-free, i.e. outside the quantifier
+                    let reason: String = d.split(':').next().unwrap_or("").chars().take(40).collect();
+                    ctx.count_n("answers_null_because_the_buffer_has_a_codegen_diagnostic_(outside_the_quantifier)", n);
+                    ctx.count_n(&format!("answers_null_because:{}:{}:{}", reason.trim().replace(' ', "_"), b.prog, b.family), n);
+                }
+                None => {
+                    ctx.count_n("answers_null_although_no_diagnostic_was_published_(counted,_no_verdict)", n);
+                    if !already {
+                        ctx.count_n("answers_null_or_empty_for_an_error-free_buffer_not_yet_formatted_(counted,_no_verdict)", n);
+                    }
+                    ctx.note(format!("null answer without diagnostics for {}", show(&text)));
+                }
+            }
+            continue;
+        }
+        if v.get("__error").is_some() {
+            ctx.count_n("answers_error_response_(no_verdict)", n);
+            continue;
+        }
+        let edits = match parse_edits(v) {
+            Ok(e) => e,
+            Err(why) => {
+                ctx.finding(Finding::new(
+                    format!("edits:malformed:{}:{}:{}:answer", ascii, eol, kind),
+                    format!("{}: {}", why, v),
+                    b.case_json(first.0.kind, first.0.pos),
+                ));
+                continue;
+            }
+        };
+        if edits.is_empty() {
+            ctx.count_n("answers_empty", n);
+            if already {
+                ctx.count_n("answers_empty_for_already_formatted_text", n);
+            } else {
+                ctx.count_n("answers_null_or_empty_for_an_error-free_buffer_not_yet_formatted_(counted,_no_verdict)", n);
+                ctx.count_n("answers_empty_for_a_buffer_not_yet_formatted", n);
+                ctx.note(format!("empty edit list although the formatter changes {}", show(&text)));
+            }
+            continue;
+        }
+        ctx.count_n("answers_with_edits", n);
+        if already {
+            ctx.count_n("answers_with_edits_for_already_formatted_text", n);
+        }
+        ctx.nontrivial(fnv_str(&format!("{}\u{1}{}\u{1}{}", b.key(), kind, v)));
+        let j = judge(&text, &expected, &edits);
+        ctx.count_n("edits_judged", j.n_edits as u64 * n);
+        for s in &j.shapes {
+            ctx.count(&format!("edit_shapes_seen:{}", s));
+        }
+        for r in &j.reproduce {
+            ctx.count_n(&format!("reproduces_formatter:{}:{}:{}", ascii, eol, r), n);
+        }
+        if j.reproduce.is_empty() {
+            ctx.count_n(&format!("reproduces_formatter:{}:{}:under-no-reading", ascii, eol), n);
+        }
+        ctx.count_n(&format!("answers_with_edits:{}:{}", ascii, eol), n);
+        if j.violated.is_empty() {
+            ctx.count_n("answers_with_edits_correct", n);
+        } else {
+            ctx.count_n("answers_with_edits_violating", n);
+            ctx.finding(Finding::new(
+                format!("edits:{}:{}:{}:{}:{}", j.violated[0], ascii, eol, kind, j.label),
+                format!(
+                    "{} [{} / {}]: {} edits for {}; violated: {}; {}; readings that do reproduce the formatter: {}; formatter text {}",
+                    first.0.kind,
+                    b.prog,
+                    b.variant,
+                    j.n_edits,
+                    show(&text),
+                    j.violated.join(","),
+                    j.what,
+                    if j.reproduce.is_empty() { "none".to_string() } else { j.reproduce.join(",") },
+                    show(&expected)
+                ),
+                b.case_json(first.0.kind, first.0.pos),
+            ));
+        }
+    }
+    BufOut {
+        formatted: if already { None } else { Some(expected) },
+        reference_ok: true,
+    }
+}
+
+// ------------------------------------------------------------------------------------------------
+// the real binary: `mos format` writes what the in-process formatter returns
+
+fn mos_path(ctx: &Ctx) -> PathBuf {
+    std::env::var("MOS_BIN")
+        .map(PathBuf::from)
+        .unwrap_or_else(|_| ctx.verif_root.join(".build/bin/release/mos"))
+}
+
+fn run_cli(mos: &Path, dir: &Path, b: &Buf) -> Result<(Option<i32>, String, String), String> {
+    let _ = std::fs::remove_dir_all(dir);
+    std::fs::create_dir_all(dir).map_err(|e| format!("mkdir {}: {}", dir.display(), e))?;
+    for (n, t) in &b.files {
+        std::fs::write(dir.join(n), t).map_err(|e| format!("write {}: {}", n, e))?;
+    }
+    let out = Command::new(mos)
+        .args(["-e", "Short", "--no-color", "format"])
+        .current_dir(dir)
+        .env_remove("RUST_LOG")
+        .env("RUST_BACKTRACE", "0")
+        .stdin(std::process::Stdio::null())
+        .output()
+        .map_err(|e| format!("cannot run {}: {}", mos.display(), e))?;
+    let bytes = std::fs::read(dir.join(&b.target)).map_err(|e| format!("read {}: {}", b.target, e))?;
+    let _ = std::fs::remove_dir_all(dir);
+    Ok((
+        out.status.code(),
+        String::from_utf8_lossy(&bytes).to_string(),
+        String::from_utf8_lossy(&out.stderr).to_string() + &String::from_utf8_lossy(&out.stdout),
+    ))
+}
+
+/// Returns false on a machinery failure.
+fn cli_cross_check(ctx: &Ctx, bufs: &[&Buf], want: usize) -> bool {
+    let mos = mos_path(ctx);
+    if !mos.is_file() {
+        eprintln!(
+            "C17: MACHINERY: mos executable not found at {} (build it: cd /repo && CARGO_TARGET_DIR=/verif/.build/bin cargo build --release --offline -p mos; or set MOS_BIN)",
+            mos.display()
+        );
+        return false;
+    }
+    // stratified: the same number from every (family, ascii, eol) class, evenly spaced
+    let mut classes_: BTreeMap<(String, &str, &str), Vec<&Buf>> = BTreeMap::new();
+    for b in bufs {
+        let (a, e) = classes(b);
+        classes_.entry((b.family.to_string(), a, e)).or_default().push(b);
+    }
+    let per = (want / classes_.len().max(1)).max(2);
+    let mut chosen: Vec<&Buf> = vec![];
+    for (_, v) in classes_.iter() {
+        let step = (v.len() / per).max(1);
+        chosen.extend(v.iter().step_by(step).take(per).cloned());
+    }
+    let scratch = ctx.verif_root.join(".build/scratch/c17");
+    let counter = AtomicU64::new(0);
+    let machinery: Mutex<Option<String>> = Mutex::new(None);
+    chosen.par_iter().for_each(|b| {
+        let k = counter.fetch_add(1, Ordering::Relaxed);
+        let dir = scratch.join(format!("{}-{}", std::process::id(), k));
+        let expected = match reference(b) {
+            Reference::Formatted(s) => s,
+            _ => return,
+        };
+        ctx.eval(|| b.case_json("mos format", None));
+        match run_cli(&mos, &dir, b) {
+            Err(e) => *machinery.lock().unwrap() = Some(e),
+            Ok((exit, written, output)) => {
+                let (a, e) = classes(b);
+                ctx.count("cli_buffers_formatted_by_the_real_binary");
+                ctx.count(&format!("cli:{}:{}", a, e));
+                if written == expected && exit == Some(0) {
+                    ctx.count("cli_file_equals_in_process_format");
+                } else {
+                    ctx.finding(Finding::new(
+                        format!("reference:mos-format-differs-from-in-process-format:{}:{}", a, e),
+                        format!(
+                            "`mos format` (exit {:?}, output {:?}) wrote {} but the in-process formatter gives {} for {}",
+                            exit,
+                            output,
+                            show(&written),
+                            show(&expected),
+                            show(b.text())
+                        ),
+                        b.case_json("mos format", None),
+                    ));
+                }
+            }
+        }
+    });
+    let _ = std::fs::remove_dir(&scratch);
+    if let Some(m) = machinery.lock().unwrap().clone() {
+        eprintln!("C17: MACHINERY: {}", m);
+        return false;
+    }
+    true
+}
+
+// ------------------------------------------------------------------------------------------------
+
+fn replay_case(ctx: &Ctx, case: &Value) -> i32 {
+    let mut files = vec![];
+    if let Some(m) = case["files"].as_object() {
+        for (n, t) in m {
+            files.push((n.clone(), t.as_str().unwrap_or("").to_string()));
+        }
+    }
+    let b = Buf {
+        prog: "replay".into(),
+        family: "replay",
+        variant: "replay".into(),
+        files,
+        target: case["target"].as_str().unwrap_or("main.asm").to_string(),
+    };
+    if b.files.iter().all(|f| f.0 != b.target) {
+        eprintln!("C17: replay case has no file {}", b.target);
+        return 2;
+    }
+    let text = b.text().to_string();
+    println!("buffer {} = {:?}", b.target, text);
+    let expected = match reference(&b) {
+        Reference::Formatted(s) => {
+            println!("in-process format(path, tree, default) = {:?}", s);
+            Some(s)
+        }
+        Reference::NotErrorFree(e) => {
+            println!("buffer is not error-free ({}): outside the quantifier", e);
+            None
+        }
+        Reference::Panic(p) => {
+            println!("in-process formatter panics: {}", p);
+            None
+        }
+    };
+    if case["request"] == "mos format" {
+        let dir = ctx.verif_root.join(format!(".build/scratch/c17/replay-{}", std::process::id()));
+        match run_cli(&mos_path(ctx), &dir, &b) {
+            Ok((exit, written, output)) => {
+                println!("`mos format`: exit {:?}, output {:?}, file now {:?}", exit, output, written);
+                println!("=> {}", if Some(&written) == expected.as_ref() { "EQUAL to the in-process formatter" } else { "DIFFERENT from the in-process formatter" });
+            }
+            Err(e) => {
+                eprintln!("C17: MACHINERY: {}", e);
+                return 2;
+            }
+        }
+        return 0;
+    }
+    let req = Req {
+        kind: if case["request"] == "onTypeFormatting" { "onTypeFormatting" } else { "formatting" },
+        pos: case["position"]["line"].as_u64().map(|l| (l, case["position"]["character"].as_u64().unwrap_or(0))),
+    };
+    let req = if req.kind == "onTypeFormatting" && req.pos.is_none() {
+        Req {
+            kind: "onTypeFormatting",
+            pos: Some((0, 0)),
+        }
+    } else {
+        req
+    };
+    let mut server = Server::start();
+    if let Err(d) = open_all(&mut server, &b) {
+        println!("server died while opening the documents: {:?}", d);
+        return 0;
+    }
+    println!("published diagnostics: {}", json!(server.diags));
+    let answer = send(&mut server, &b.target, &req);
+    crate::lspdrv::cleanup_root();
+    let v = match answer {
+        Ok(v) => v,
+        Err(d) => {
+            println!("server died: {:?}", d);
+            return 0;
+        }
+    };
+    println!("answer to textDocument/{} {:?}: {}", req.kind, req.pos, v);
+    let (expected, edits) = match (expected, parse_edits(&v)) {
+        (Some(e), Ok(ed)) => (e, ed),
+        (_, Err(why)) => {
+            println!("no edit list ({}): no verdict", why);
+            return 0;
+        }
+        _ => return 0,
+    };
+    if edits.is_empty() {
+        println!("empty edit list: no verdict (buffer {} formatted)", if expected == text { "is already" } else { "IS NOT YET" });
+        return 0;
+    }
+    for (u, lm, name) in READINGS.iter() {
+        let a = apply(&text, &edits, *u, *lm);
+        println!(
+            "applied with reading {:<22} in range: {:<5} result: {} => {}",
+            name,
+            a.in_range,
+            a.text.as_ref().map(|t| format!("{:?}", t)).unwrap_or_else(|| "<overlapping>".into()),
+            if a.text.as_deref() == Some(expected.as_str()) { "equals the formatter's text" } else { "DIFFERS" }
+        );
+    }
+    let j = judge(&text, &expected, &edits);
+    if j.violated.is_empty() {
+        println!("C17 holds for this case");
+    } else {
+        println!("C17 FAILS ({}; {}): {}", j.violated.join(","), j.label, j.what);
+    }
+    0
+}
+
+pub fn run(ctx: &Ctx, replay: Option<&Value>) -> i32 {
+    if let Err(e) = self_check() {
+        eprintln!("C17: MACHINERY: {}", e);
+        return 2;
+    }
+    let _ = root();
+    if let Some(case) = replay {
+        return replay_case(ctx, case);
+    }
+    let thorough = ctx.tier.is_thorough();
+    let max_on_type = if thorough { 64 } else { 6 };
+
+    // round 1: the enumerated buffers (deduplicated by content)
+    let all = buffers(thorough, ctx);
+    ctx.set("buffers_generated", json!(all.len()));
+    let mut seen: HashSet<u64> = HashSet::new();
+    let round1: Vec<Buf> = all.into_iter().filter(|b| seen.insert(b.key())).collect();
+    ctx.set("buffers_distinct_round1", json!(round1.len()));
+    let outs: Vec<BufOut> = round1.par_iter().map(|b| run_buffer(ctx, b, max_on_type)).collect();
+    ctx.set("wall_s_after_round1", json!(ctx.wall()));
+
+    // round 2: the formatter's own output for each of them (already formatted text)
+    let mut round2: Vec<Buf> = vec![];
+    for (b, o) in round1.iter().zip(outs.iter()) {
+        if let Some(f) = &o.formatted {
+            let mut nb = b.clone();
+            for file in nb.files.iter_mut() {
+                if file.0 == nb.target {
+                    file.1 = f.clone();
+                }
+            }
+            nb.family = "formatter-output";
+            nb.variant = format!("format({}:{})", b.family, b.variant);
+            let mut cr = nb.clone();
+            if seen.insert(nb.key()) {
+                round2.push(nb);
+                // the same text with CRLF line ends (formatted up to the line ends)
+                if thorough || round2.len() % 5 == 0 {
+                    for file in cr.files.iter_mut() {
+                        if file.0 == cr.target {
+                            file.1 = crlf(&file.1);
+                        }
+                    }
+                    cr.variant = format!("{}+crlf", cr.variant);
+                    if seen.insert(cr.key()) {
+                        round2.push(cr);
+                    }
+                }
+            }
+        }
+    }
+    // the delete / equal / insert merge rule needs text that moves across unchanged text: the
+    // formatted base programs with one `, ` written ` ,` (the space moves over the comma)
+    for (b, o) in round1.iter().zip(outs.iter()) {
+        if b.family != "plain" || b.variant != "as-is" {
+            continue;
+        }
+        let f = match &o.formatted {
+            Some(f) => f.clone(),
+            None => b.text().to_string(),
+        };
+        let places: Vec<usize> = f.match_indices(", ").map(|m| m.0).collect();
+        for (k, at) in places.iter().enumerate() {
+            for (v, moved) in [("moved-space", " ,"), ("moved-space-after-é", " ,")] {
+                let mut t = f.clone();
+                t.replace_range(*at..*at + 2, moved);
+                if v == "moved-space-after-é" {
+                    // a non-ASCII comment earlier on the same line
+                    let bol = t[..*at].rfind('\n').map(|p| p + 1).unwrap_or(0);
+                    let code = bol + t[bol..].len() - t[bol..].trim_start().len();
+                    t.insert_str(code, "/* é */ ");
+                }
+                let mut nb = b.clone();
+                nb.files[0].1 = t;
+                nb.family = "moved-space";
+                nb.variant = format!("{}@{}", v, k);
+                if seen.insert(nb.key()) {
+                    round2.push(nb);
+                }
+            }
+        }
+    }
+    ctx.set("buffers_distinct_round2_formatter_outputs", json!(round2.len()));
+    let _outs2: Vec<BufOut> = round2.par_iter().map(|b| run_buffer(ctx, b, max_on_type)).collect();
+    ctx.set("wall_s_after_round2", json!(ctx.wall()));
+
+    // real binary
+    let ok_bufs: Vec<&Buf> = round1
+        .iter()
+        .zip(outs.iter())
+        .filter(|(_, o)| o.reference_ok)
+        .map(|(b, _)| b)
+        .chain(round2.iter().step_by(7))
+        .collect();
+    if !cli_cross_check(ctx, &ok_bufs, if thorough { 150 } else { 50 }) {
+        crate::lspdrv::cleanup_root();
+        return 2;
+    }
+    crate::lspdrv::cleanup_root();
+    ctx.set("on_type_requests_per_buffer_at_most", json!(max_on_type));
+    ctx.set(
+        "null_or_empty_answers",
+        json!({
+            "for_error_free_buffers_not_yet_formatted": ctx.counter("answers_null_or_empty_for_an_error-free_buffer_not_yet_formatted_(counted,_no_verdict)"),
+            "null_because_code_generation_reports_a_diagnostic_(buffer_not_error-free)": ctx.counter("answers_null_because_the_buffer_has_a_codegen_diagnostic_(outside_the_quantifier)"),
+            "null_without_any_diagnostic": ctx.counter("answers_null_although_no_diagnostic_was_published_(counted,_no_verdict)"),
+            "empty_for_already_formatted_text": ctx.counter("answers_empty_for_already_formatted_text"),
+            "edits_for_already_formatted_text": ctx.counter("answers_with_edits_for_already_formatted_text"),
+        }),
+    );
+    ctx.finish(
+        "exploration",
+        "buffers = valid base programs + 5 formatter-specific shapes x {as rendered, 13 whole-file spacing variants, one-factor whitespace deviations at every trivia slot (quick: space / tab / 3 spaces / line break; thorough: 7 kinds + separator removed), one comment per trivia slot (block / line / two-line block / end-of-line kinds), the same slots with non-ASCII comment text and every string literal with é / → / 💾 at start, middle, end (each also with trailing whitespace and widened spaces), CRLF versions; thorough: comment pairs <= 6 terminals apart, all three non-ASCII characters at every place} + 15 tiny buffers + a non-entry file + the sources under /repo/examples + the formatter's own output for every one of them (also with CRLF line ends) + formatted base programs with one space moved across a comma; one case = one textDocument/formatting or textDocument/onTypeFormatting('}') request (after every '}' of the buffer) on a fresh real server holding that buffer. Oracle only on answers with edits: in range, sorted, non-overlapping, and applied with the LSP text model (UTF-16 columns; lines end at \\n, \\r\\n, \\r) equal to the in-process format(path, tree, default), which is cross-checked against `mos format` of the real binary on a stratified selection. non-trivial = distinct (buffer, request kind, non-empty edit list)",
+        true,
+        &[
+            "small-scope: base programs of the harness grammar, deviation bound 1 (quick) / one-factor whitespace + comment pairs (thorough); buffers that are not error-free are outside the quantifier and only counted",
+            "the LSP text model (UTF-16 columns, three line-end forms, clamping of out-of-range positions) is trusted; it is self-checked on hand-made cases at start-up",
+            "the real main loop runs over an in-memory connection; stdio framing is not exercised here",
+            "null / empty answers are counted, never judged (the statement only constrains returned edits)",
+            "quick sends onTypeFormatting after the first 6 `}` of a buffer only (thorough: all); the handler ignores the position",
+            "example sources are opened with the import path flattened into the scratch root (../shared/c64.asm -> c64.asm)",
+        ],
+    )
 }
